@@ -180,6 +180,11 @@ func execFresh(prop string, raw json.RawMessage, cfg workerCfg) (sig, what strin
 		self = cfg.RaceBin
 		env = append(os.Environ(), fmt.Sprintf("GORACE=log_path=%s halt_on_error=0 exitcode=0", filepath.Join(cfg.Scratch, fmt.Sprintf("race-exec-%d", time.Now().UnixNano()))))
 	}
+	if env == nil {
+		// one P and no garbage collection: sync.Pool (per-P caches, emptied by the GC) then behaves the same way every
+		// time, so a violation that depends on what a pool holds replays as reliably as the code allows
+		env = append(os.Environ(), "GOMAXPROCS=1", "GOGC=off")
+	}
 	cmd := exec.Command(self, "exec", "-verif", cfg.Verif, "-repo", repoDir, "-scratch", cfg.Scratch)
 	cmd.Env = env
 	cmd.Stdin = bytes.NewReader(in)
@@ -295,7 +300,7 @@ func run(cfg workerCfg, noEvidence bool) int {
 		se := &bytes.Buffer{}
 		cmd.Stderr = se
 		cmd.Stdout = se
-		cmd.Env = append(os.Environ(), "GOMAXPROCS=2")
+		cmd.Env = append(os.Environ(), "GOMAXPROCS=1", "GOGC=400")
 		if err := cmd.Start(); err != nil {
 			die2("start worker: %v", err)
 		}
